@@ -479,6 +479,9 @@ pub fn run_case(case: &Value, probe: bool, progress: *mut u32) -> Vec<Value> {
     // PROT_MODE=mlockall: every page of the process is locked (mlockall(MCL_CURRENT | MCL_FUTURE)), as in a daemon that pins
     // itself in RAM.  Page states then say nothing about the library; only the wipe-before-release oracles of C15 are active.
     let wipe_only = std::env::var("PROT_MODE").map(|v| v == "mlockall").unwrap_or(false);
+    // PROT_MODE=unwind: every drop of the behaviour happens while the thread unwinds from a panic (caught above it); a region
+    // released that way is held to everything a region released by an ordinary drop is
+    let unwinding = std::env::var("PROT_MODE").map(|v| v == "unwind").unwrap_or(false);
     if wipe_only {
         if unsafe { libc::mlockall(libc::MCL_CURRENT | libc::MCL_FUTURE) } != 0 {
             return vec![json!({"key": "HARNESS: mlockall refused"})];
@@ -564,9 +567,17 @@ pub fn run_case(case: &Value, probe: bool, progress: *mut u32) -> Vec<Value> {
             }
             "drop" => {
                 let reg = slots[h].reg.take();
-                match catch(move || drop(reg)) {
-                    Ok(()) => Ok(Ok(())),
-                    Err(p) => Err(p),
+                if unwinding {
+                    // the region goes out of scope while its thread unwinds from a panic the process survives
+                    match catch(move || { let _alive = reg; if true { std::panic::resume_unwind(Box::new("PROT_MODE=unwind")); } }) {
+                        Err(_) => Ok(Ok(())),
+                        Ok(()) => Err("the injected panic did not unwind".to_string()),
+                    }
+                } else {
+                    match catch(move || drop(reg)) {
+                        Ok(()) => Ok(Ok(())),
+                        Err(p) => Err(p),
+                    }
                 }
             }
             "deserialize" => {
@@ -895,7 +906,8 @@ pub fn run_case(case: &Value, probe: bool, progress: *mut u32) -> Vec<Value> {
     // ---- end of behaviour: drop whatever is left, then nothing may remain locked or protected
     for s in slots.iter_mut() {
         let r = s.reg.take();
-        let _ = catch(move || drop(r));
+        if unwinding { let _ = catch(move || { let _alive = r; if true { std::panic::resume_unwind(Box::new("PROT_MODE=unwind")); } }); }
+        else { let _ = catch(move || drop(r)); }
     }
     let maps = smaps();
     let al = allocs();
